@@ -1,7 +1,7 @@
 """Configuration of ./check C01 (see cfg/README)."""
 
 PROP = {'drive': ['Font'],
- 'modules': ['SfntV.Props.C01', 'SfntV.Props.C01Codecs', 'SfntV.Props.C01File'],
+ 'modules': ['SfntV.Props.C01', 'SfntV.Props.C01Codecs', 'SfntV.Props.C01File', 'SfntV.Props.C01FileEx'],
  'required_theorems': ['C01_write_accepted',
                        'C01_read_write',
                        'C01_env_irrelevant',
@@ -13,6 +13,8 @@ PROP = {'drive': ['Font'],
                        'C01_fixed_point_truetype',
                        'C01_codec_assumptions_discharged',
                        'C01_file_roundtrip',
+                       'C01_file_example_in_domain',
+                       'C01_file_example',
                        'C01_head_codec',
                        'C01_os2_codec',
                        'C01_post_codec',
